@@ -89,7 +89,11 @@ def build_sessions(rng, n):
             inner = gen.strip_sigops(gen.gen_deep(rng, BASE, STANDARD, rng.choice([1, 3, 8]), [], fail_keep=0.0)) or bytes([OP_1])
             inner = inner[:500]
             tmpl = bytes([OP_HASH160, 20]) + hash160(inner) + bytes([OP_EQUAL])
-            S.append(dict(kind='p2sh-plain', args=['0x' + tmpl.hex(), '0x' + inner.hex()], scripts=[('script', tmpl), ('P2SH script', inner)]))
+            if rng.random() < 0.3:
+                # with the P2SH rule switched off the template is an ordinary script: nothing follows it
+                S.append(dict(kind='p2sh-plain', variant='P2SH-off', args=['--modify-flags=-P2SH', '0x' + tmpl.hex(), '0x' + inner.hex()], scripts=[('script', tmpl)]))
+            else:
+                S.append(dict(kind='p2sh-plain', args=['0x' + tmpl.hex(), '0x' + inner.hex()], scripts=[('script', tmpl), ('P2SH script', inner)]))
         else:
             otype = rng.choice(['p2pk', 'p2pkh', 'multisig', 'p2sh-multisig', 'p2sh-hashlock', 'p2wpkh', 'p2wsh', 'p2sh-p2wpkh', 'p2sh-p2wsh', 'p2tr-key', 'p2tr-script', 'p2tr-script', 'p2tr-script'])
             try:
@@ -119,6 +123,11 @@ def build_sessions(rng, n):
                 control, script = wit[-1], wit[-2]
                 commit = (len(control) - 33) // 32 + 1
                 scripts = [('script', script)]
+            if otype in ('p2sh-multisig', 'p2sh-hashlock') and rng.random() < 0.35:
+                # P2SH rule off (and with it the rules that presuppose it): scriptSig and scriptPubKey are all there is to run
+                S.append(dict(kind=otype, variant='P2SH-off', args=['--modify-flags=-P2SH,-CLEANSTACK,-WITNESS', '--tx=' + rtx.ser_tx(tx).hex(), '--txin=' + rtx.ser_tx(sc['fund']).hex()],
+                              scripts=scripts[:2], commit=0))
+                continue
             S.append(dict(kind=otype, args=['--tx=' + rtx.ser_tx(tx).hex(), '--txin=' + rtx.ser_tx(sc['fund']).hex()], scripts=scripts, commit=commit))
     return S
 
@@ -157,7 +166,7 @@ def worker(job):
             if len(segs) != len(cmds) + 1:
                 part.violation('session-ended-early', dict(wit, got=len(segs), want=len(cmds) + 1, tail=getattr(r, 'tail', '')[-300:], stderr=r.stderr.decode('latin1')[-400:]))
                 continue
-            part.count('sessions', sess['kind'])
+            part.count('sessions', sess['kind'] + ('/' + sess['variant'] if sess.get('variant') else ''))
             # --- listing (from the first print)
             lst = parse_print(segs[1]['out'])
             count = segs[0]['dump']['count']
